@@ -37,7 +37,15 @@ where
             }
         }
 
-        self.parsers.last_mut().unwrap().parse(input)
+        match self.parsers.last_mut().unwrap().parse(input) {
+            Ok(x) => Ok(x),
+            Err(err) => {
+                if err.is_soft() {
+                    input.set_position(original_position);
+                }
+                Err(err)
+            }
+        }
     }
 
     fn set_context(&mut self, ctx: &C) {
@@ -86,9 +94,22 @@ where
     type Error = L::Error;
 
     fn parse(&mut self, input: &mut I) -> Result<Self::Output, Self::Error> {
+        let original_position = input.get_position();
         match self.left.parse(input) {
             Ok(x) => Ok(x),
-            Err(err) if err.is_soft() => self.right.parse(input),
+            Err(err) if err.is_soft() => {
+                // the alternative starts from the original position
+                input.set_position(original_position);
+                match self.right.parse(input) {
+                    Ok(x) => Ok(x),
+                    Err(err) => {
+                        if err.is_soft() {
+                            input.set_position(original_position);
+                        }
+                        Err(err)
+                    }
+                }
+            }
             Err(err) => Err(err),
         }
     }
